@@ -25,6 +25,9 @@ var wbits = []int64{0, 8, 9, 10, 11, 12, 13, 14, 15}
 func runC14(c *Ctx) {
 	// the negotiator is driven by the server's scan of the extensions header
 	negotiateExtensionsRules(c, "C14")
+	// a refusal by the negotiator must end the handshake in both upgraders
+	serverUpgraderRules(c, "C14")
+	httpUpgraderRules(c, "C14")
 	c14ParamError(c)
 	c14Negotiate(c)
 	c14Parse(c)
